@@ -73,6 +73,9 @@ def design (j : Json) : R Json := do
   if (← fNat j "dp_range_len") != 3 then
     -- target_power indexes dp_range[2]: IndexError -> ConfigurationError, as soon as one amplifier needs the rule
     return jObj [("error", jStr "ConfigurationError")]
+  if ch.line.any (fun e => match e with
+    | .fiber _ p => splitRaises sc p
+    | _ => false) then return jObj [("error", jStr "NetworkTopologyError")]
   let missing := addMissingLine sc ch
   let withConn := addConn (← fF j "con_in") (← fF j "con_out") (← fF j "eol") missing
   if (runs withConn).any padRaises then return jObj [("error", jStr "TypeError")]
@@ -86,12 +89,14 @@ def design (j : Json) : R Json := do
   let inputs := ampInputs dstIsRoadm line sels
   let outs := designAmps c pref prefTotal (srcPower - pref) 0.0 inputs
   let ms := marginsOf c pref prefTotal (srcPower - pref) 0.0 inputs
+  let disp ← fF j "display_power"
+  let refs := refIns pref disp line outs
   let amps := (line.filter (fun e => e.isEdfa)).map Elem.uid
   return jObj [("amps", jList jStr amps),
                ("outs", jList (fun om => jObj [("o", jAmpOut om.1 om.2.1), ("m_target", jF om.2.2)]) (outs.zip ms)),
                ("inputs", jList (fun a => jObj [("node_loss", jF a.nodeLoss), ("next_loss", jF a.nextLoss),
                                                 ("next_is_roadm", jBool a.nextIsRoadm)]) inputs),
-               ("line", jList jElem line)]
+               ("line", jList jElem line), ("ref_in", jList jF refs)]
 
 def handlers : List (String × Handler) := [("c09.r2f", r2f), ("c09.target", target), ("c09.design", design)]
 
